@@ -173,7 +173,7 @@ theorem SInv.moved {lv : Level} {n k : Nat} {st : LState} (hg : GoodLevel lv n k
 
 theorem SInv.visit {lv : Level} {n k : Nat} {st st' : LState} {m res : Rat} {u : Nat} (hg : GoodLevel lv n k)
     (h : SInv lv k st) (hv : LouvainFull.visit lv m res st u = .ok st') : SInv lv k st' := by
-  obtain ⟨cur, w2c, best, hcur, hw, hbest, -, -, -, hcase⟩ := visit_ok hv
+  obtain ⟨cur, w2c, best, hcur, hw, hbest, -, -, -, -, -, -, hcase⟩ := visit_ok hv
   rcases hcase with ⟨hne, hst⟩ | ⟨-, hst⟩
   · have hbk : best ∈ w2c.map (·.1) := by
       rcases hbest with h1 | h1
